@@ -137,6 +137,35 @@ theorem seekOK_prefix {T : Key} {L S : List KV} (hs : Sorted L) (h : SeekOK T L 
         · exact ht y (by simpa using hy)
       rw [hL, List.filter_append, hDnil, List.nil_append, filter_eq_takeWhile_prefix T (x :: R) hSs hge]
 
+/-- the same after the conditional step of the repaired `Seek` -/
+theorem seekOK_prefix_advance {T : Key} {L S : List KV} (hs : Sorted L) (h : SeekOK T L S) :
+    (advance T S).takeWhile (fun kv => hasPrefix T kv.1) = L.filter (fun kv => hasPrefix T kv.1) := by
+  have hp := seekOK_prefix hs h
+  obtain ⟨D, hL, hD, hne, ht, hpre⟩ := h
+  cases S with
+  | nil => exact absurd rfl hne
+  | cons x R =>
+    by_cases hx : keyLt x.1 T = true
+    · have hnone := hpre x rfl hx
+      simp only [advance, hx, if_true]
+      have h2 : L.filter (fun kv => hasPrefix T kv.1) = [] := by
+        apply List.filter_eq_nil_iff.2
+        intro y hy
+        simp [hnone y hy]
+      rw [h2]
+      cases R with
+      | nil => rfl
+      | cons y ys =>
+        have : hasPrefix T y.1 = false := hnone y (by rw [hL]; simp)
+        simp [List.takeWhile_cons, this]
+    · simp only [advance, hx]
+      exact hp
+
+theorem advance_nil_probe (S : List KV) : advance [] S = S := by
+  cases S with
+  | nil => rfl
+  | cons x R => simp [advance, keyLt_nil_right]
+
 /-- with the empty prefix nothing is skipped -/
 theorem seekOK_nil {L S : List KV} (h : SeekOK [] L S) : S = L := by
   obtain ⟨D, hL, hD, _, _, _⟩ := h
